@@ -545,11 +545,13 @@ fn check(c: &Case, obs: &mut Obs) -> Result<(), Failure> {
     }
     // Where every native instruction occurs.  Ground truth per reachable instruction: the IL of
     // its own lifting (n IL instructions spread over nb IL blocks; the two halves A / A+1 of a MIPS
-    // branch count separately).  "Appears in exactly one block" is decided as: all n IL
-    // instructions are there, none twice, and they sit in no more blocks than the instruction's own
-    // graph has (one block for the ordinary single-block instruction).  An instruction whose own
-    // lifting holds NO IL instruction (falcon documents that direct branches are omitted from the IL
-    // and become guarded edges) cannot occur in a block; the clause does not range over it.
+    // branch count separately, and the deferred half A+1 of a direct MIPS branch is empty by
+    // design).  "Appears in exactly one block" is decided as: all n IL instructions are there, none
+    // twice, and they sit in no more blocks than the instruction's own graph has (one block for the
+    // ordinary single-block instruction).  A native instruction whose lifting holds NO IL
+    // instruction at all appears in no block: the x86 and MIPS lifters emit a placeholder nop for
+    // direct branches precisely so that there is an instruction at that address; where a lifter
+    // does not, the clause is violated (signature ...|empty-instruction-graph).
     let mut occ: BTreeMap<u64, (usize, BTreeSet<usize>)> = BTreeMap::new();
     for (b, is) in &view.blocks {
         for i in is {
@@ -568,11 +570,15 @@ fn check(c: &Case, obs: &mut Obs) -> Result<(), Failure> {
             expect.insert(*raw, (u.il_instrs[j], u.il_blocks[j], native));
         }
     }
+    let empty_sig = format!("C06|{}|structure|reachable-instruction-in-no-block|empty-instruction-graph", tag);
     let mut no_il = 0u64;
     for (raw, (n, nb, native)) in &expect {
         let text = &p.insns[*native].text;
         if *n == 0 {
             if p.by_addr.contains_key(raw) {
+                if !obs.known(&empty_sig) {
+                    fv::fail!(empty_sig, "the instruction at 0x{:x} ({}) is reachable through direct branches but no block of the recovered function holds an instruction with its address: its own lifting is an empty graph\n{}", raw, text, dump());
+                }
                 no_il += 1;
             }
             continue;
@@ -593,10 +599,14 @@ fn check(c: &Case, obs: &mut Obs) -> Result<(), Failure> {
     }
     obs.count("reachable-instructions", r_addrs.len() as u64);
     obs.count("reachable-instructions-without-il", no_il);
-    // The entry block is the function address: its first instruction carries that address.  When
-    // the function's first native instruction lifts to no IL instruction (a direct branch) the entry
-    // block has no such instruction to show; the behavioural comparison below still requires the
-    // executions to start identically.
+    if no_il > 0 {
+        // tolerated as a known finding: such instructions are events on neither side below
+        obs.exclude(&format!("known_finding:{}", empty_sig));
+    }
+    // The entry block is the function address: its first instruction carries that address.  (When
+    // the function's first native instruction lifts to no IL instruction - the known finding above -
+    // the entry block has no such instruction to show; the behavioural comparison below still
+    // requires the executions to start identically.)
     let entry_has_il = expect.get(&p.entry).map(|e| e.0 > 0).unwrap_or(false);
     if entry_has_il {
         let entry_first = view.blocks[&entry_block].first().and_then(|i| i.address);
@@ -857,7 +867,7 @@ fn main() -> std::process::ExitCode {
         "C06",
         "machine-code programs of 3-60 items for x86/amd64/mips/mipsel/aarch64 (ALU, scratch loads/stores, forward/backward conditional and unconditional direct branches, counted loops, optional jmp-reg dispatch with manual edges, junk islands) recovered with translate_function[_extended] and compared, structurally against the generator's ground truth and behaviourally (Driver and reference interpreter on the recovered function vs a sequential one-unit-at-a-time stepper, same random initial state, up to 2000 native steps); non-trivial = at least 2 blocks after merge and at least one taken branch in the execution; distinct = (ISA, set of layout shapes {window cut, straddle, cut on boundary, MIPS branch in last 8 bytes, mid-block target, backward, entry loop, manual edges, ...}, instruction-count bucket)",
         Box::new(|_t: Tier| from_tape(900, decode).no_shrink().boxed()),
-        |t| t.pick(60_000, 2_000_000),
+        |t| t.pick(45_000, 1_500_000),
         check,
     );
     spec.render = render;
